@@ -128,7 +128,7 @@ func (t *tailBuf) String() string { t.mu.Lock(); defer t.mu.Unlock(); return str
 func (t *tailBuf) Reset()         { t.mu.Lock(); t.buf = t.buf[:0]; t.mu.Unlock() }
 
 func start(name string, extra []string) (*proc, error) {
-	args := append([]string{name, "--worker"}, extra...)
+	args := append([]string{"--worker"}, extra...)
 	cmd := exec.Command(os.Args[0], args...)
 	in, _ := cmd.StdinPipe()
 	outp, _ := cmd.StdoutPipe()
